@@ -249,6 +249,7 @@ func builtinIntrinsics() map[string]Intrinsic {
 		}
 		return m.ctx.Decimal(term(a[0]), e)
 	}
+	I[zz+"Thorough"] = func(m *Machine, fn *ssa.Function, a []Value) Value { return m.ctx.Bool(m.Cfg.Thorough) }
 	I[zz+"SymbolicMapOrder"] = func(m *Machine, fn *ssa.Function, a []Value) Value { m.locals["maporder"] = true; return nil }
 	I[zz+"UF64"] = func(m *Machine, fn *ssa.Function, a []Value) Value {
 		name := m.strArg(a[0])
